@@ -111,9 +111,10 @@ def one_spec(spec: Dict[str, Any], rng: random.Random, n_sched: int) -> Dict[str
     sess = uni.prepare()
     plan = export_plan(sess, uni)
     adj = export_adj(plan)
-    o = run_observed(sess)
+    o = run_observed(sess, ren=plan["_ren"])
     rec: Dict[str, Any] = {"spec": spec, "plan": {k: v for k, v in plan.items() if k != "_ren"}, "adj": adj,
-                           "sync": {"begin": o["begin_order"], "scans": o["scans"], "status": o["status"], "foot": o["foot"]},
+                           "sync": {"begin": o["begin_order"], "scans": o["scans"], "status": o["status"], "foot": o["foot"],
+                                    "orders": o.get("orders")},
                            "gated": []}
     rec["sync"]["judge"] = judge_trace(spec, gl.events, plan, o["begin_order"], o["status"], gl.calls)
     rec["sync"]["raised"] = o["raised_steps"]
@@ -174,7 +175,8 @@ def run(rep: vlib.Reporter, tier: str, seed: int) -> None:
     rt_idx = []
     rt_items = []
     for i, r in enumerate(recs):
-        t = routing.terms(r["plan"], r["sync"]["begin"], {int(k): v for k, v in r["sync"]["foot"].items()})
+        t = routing.terms(routing.with_run_orders(r["plan"], r["sync"].get("orders")), r["sync"]["begin"],
+                          {int(k): v for k, v in r["sync"]["foot"].items()})
         if t is not None:
             rt_idx.append(i)
             rt_items.append(t)
